@@ -1,83 +1,29 @@
-(** Proofs about Model/Quartet.v.  The agreement "HashEquals => same HashCode" is FALSE of the
-    code (the second compare-exchange of Quartet.HashCode sorts the wrong way); what does hold
-    is invariance under swaps inside each pair. *)
+(** Proofs about Model/Quartet.v: Quartet.HashCode sorts the four taxa with a 5-comparator
+    network, so quartets that are HashEquals (equal or conflicting: same four taxa) always have
+    the same HashCode. *)
 From Coq Require Import NArith ZArith Bool Lia List.
 From GT Require Import Model.Index Model.HashMap Model.Quartet.
 Import ListNotations.
 
-(** minimal witness: (0,1|2,3) and (2,3|0,1) are the same quartet (Compare = QUARTET_EQUALS) *)
-Lemma quartet_witness :
-  q_compare (mkQ 0 1 2 3) (mkQ 2 3 0 1) = QEquals /\
-  q_hash_equals (mkQ 0 1 2 3) (mkQ 2 3 0 1) = true /\
-  q_hash_code (mkQ 0 1 2 3) = 924577%N /\ q_hash_code (mkQ 2 3 0 1) = 953377%N.
-Proof. vm_compute. repeat split. Qed.
-
-Lemma quartet_hash_compat_refuted :
-  exists q q', q_hash_equals q q' = true /\ q_hash_code q <> q_hash_code q'.
-Proof. exists (mkQ 0 1 2 3), (mkQ 2 3 0 1). vm_compute. split; [reflexivity | discriminate]. Qed.
-
-(** the witness of DESIGN.md *)
-Lemma quartet_witness_1234 :
-  q_hash_equals (mkQ 1 2 3 4) (mkQ 3 4 1 2) = true /\
-  q_hash_code (mkQ 1 2 3 4) = 955361%N /\ q_hash_code (mkQ 3 4 1 2) = 984161%N.
-Proof. vm_compute. repeat split. Qed.
-
-(** consequence for a HashMap keyed by quartets (IndexQuartets): a stored quartet is not found
-    under another presentation, whereas the association list with the same HashEquals finds it *)
-Lemma quartet_map_refuted :
-  let need := fun (_ : nat) (_ : N) => false in
-  let ops := [OPut (mkQ 0 1 2 3) 7%Z; OValue (mkQ 2 3 0 1)] in
-  (exists mf, run quartet Z q_hash_code q_hash_equals need (new_hashmap quartet Z 256) ops = Some ([RPut; RValue None], mf)) /\
-  fst (run_assoc quartet Z q_hash_equals [] ops) = [RPut; RValue (Some 7%Z)].
-Proof. split; [eexists|]; vm_compute; reflexivity. Qed.
-
-(** what remains true: the hash does not depend on the order inside each pair *)
-Lemma cswap_lt_comm : forall a b, cswap_lt a b = cswap_lt b a.
-Proof.
-  intros. unfold cswap_lt.
-  destruct (Z.ltb_spec b a), (Z.ltb_spec a b); try reflexivity; try lia.
-  assert (a = b) by lia. subst. reflexivity.
-Qed.
-
-Lemma quartet_hash_compat_partial : forall a b c d,
-    q_hash_code (mkQ a b c d) = q_hash_code (mkQ b a c d) /\
-    q_hash_code (mkQ a b c d) = q_hash_code (mkQ a b d c).
-Proof.
-  intros. unfold q_hash_code. simpl.
-  rewrite (cswap_lt_comm (to_int a) (to_int b)).
-  rewrite (cswap_lt_comm (to_int d) (to_int c)).
-  split; reflexivity.
-Qed.
-
-(** HashEquals itself is what it should be on the eight presentations of one quartet *)
-Lemma quartet_equals_presentations : forall a b c d,
-    q_compare (mkQ a b c d) (mkQ a b c d) = QEquals /\
-    q_compare (mkQ a b c d) (mkQ b a c d) = QEquals /\
-    q_compare (mkQ a b c d) (mkQ a b d c) = QEquals /\
-    q_compare (mkQ a b c d) (mkQ b a d c) = QEquals /\
-    q_compare (mkQ a b c d) (mkQ c d a b) = QEquals /\
-    q_compare (mkQ a b c d) (mkQ d c a b) = QEquals /\
-    q_compare (mkQ a b c d) (mkQ c d b a) = QEquals /\
-    q_compare (mkQ a b c d) (mkQ d c b a) = QEquals.
-Proof.
-  intros. unfold q_compare. simpl. rewrite !N.eqb_refl. simpl.
-  repeat split; try reflexivity;
-    repeat (rewrite ?andb_true_r, ?orb_true_r, ?andb_true_l, ?orb_true_l; simpl); try reflexivity;
-    destruct (a =? b)%N, (c =? d)%N, (a =? c)%N, (a =? d)%N, (b =? c)%N, (b =? d)%N, (c =? a)%N, (d =? a)%N, (c =? b)%N, (d =? b)%N; reflexivity.
-Qed.
-
-(** * the proposed repair *)
-(** Quartet.HashCode with the second compare-exchange turned the right way
-    (if i4 < i3 { i3, i4 = i4, i3 }): a 5-comparator sorting network *)
+(** the five compare-exchanges of Quartet.HashCode *)
 Definition sort4 (i1 i2 i3 i4 : Z) : Z * Z * Z * Z :=
   let '(i1, i2) := cswap_lt i1 i2 in
   let '(i3, i4) := cswap_lt i3 i4 in
   let '(i1, i3) := cswap_lt i1 i3 in
   let '(i2, i4) := cswap_lt i2 i4 in
   let '(i2, i3) := cswap_lt i2 i3 in (i1, i2, i3, i4).
-Definition q_hash_code_fixed (q : quartet) : N :=
-  let '(i1, i2, i3, i4) := sort4 (to_int (qt1 q)) (to_int (qt2 q)) (to_int (qt3 q)) (to_int (qt4 q)) in
-  w64 (31 * w64 (31 * w64 (31 * w64 (31 + of_int i1) + of_int i2) + of_int i3) + of_int i4).
+
+Lemma q_hash_code_sort4 : forall q,
+    q_hash_code q =
+    let '(i1, i2, i3, i4) := sort4 (to_int (qt1 q)) (to_int (qt2 q)) (to_int (qt3 q)) (to_int (qt4 q)) in
+    w64 (31 * w64 (31 * w64 (31 * w64 (31 + of_int i1) + of_int i2) + of_int i3) + of_int i4).
+Proof.
+  intros q. unfold q_hash_code, sort4.
+  destruct (cswap_lt (to_int (qt1 q)) (to_int (qt2 q))) as [a b].
+  destruct (cswap_lt (to_int (qt3 q)) (to_int (qt4 q))) as [c d].
+  destruct (cswap_lt a c) as [a' c']. destruct (cswap_lt b d) as [b' d'].
+  destruct (cswap_lt b' c') as [b'' c'']. reflexivity.
+Qed.
 
 Ltac brute := unfold sort4, cswap_lt;
   repeat match goal with |- context[(?x <? ?y)%Z] => destruct (Z.ltb_spec x y) end;
@@ -115,6 +61,47 @@ Proof.
   all: timeout 60 psearch 6.
 Qed.
 
-Theorem quartet_hash_compat_fixed : forall q q',
-    q_hash_equals q q' = true -> q_hash_code_fixed q = q_hash_code_fixed q'.
-Proof. intros q q' H. unfold q_hash_code_fixed. now rewrite (hash_equals_sort4 q q' H). Qed.
+(** HashEquals => same HashCode, for all quartets (also with repeated taxa) *)
+Theorem quartet_hash_compat : forall q q',
+    q_hash_equals q q' = true -> q_hash_code q = q_hash_code q'.
+Proof. intros q q' H. rewrite !q_hash_code_sort4. now rewrite (hash_equals_sort4 q q' H). Qed.
+
+(** the former witnesses now agree *)
+Lemma quartet_former_witness :
+  q_hash_equals (mkQ 0 1 2 3) (mkQ 2 3 0 1) = true /\
+  q_hash_code (mkQ 0 1 2 3) = q_hash_code (mkQ 2 3 0 1) /\
+  q_hash_code (mkQ 1 2 3 4) = q_hash_code (mkQ 3 4 1 2).
+Proof. vm_compute. repeat split. Qed.
+
+(** the lookup that used to fail *)
+Lemma quartet_map_example :
+  let need := fun (_ : nat) (_ : N) => false in
+  let ops := [OPut (mkQ 0 1 2 3) 7%Z; OValue (mkQ 2 3 0 1)] in
+  exists mf, run quartet Z q_hash_code q_hash_equals need (new_hashmap quartet Z 256) ops = Some ([RPut; RValue (Some 7%Z)], mf).
+Proof. eexists. vm_compute. reflexivity. Qed.
+
+(** the hash does not depend on the order inside each pair (special case) *)
+Lemma quartet_hash_compat_partial : forall a b c d,
+    q_hash_code (mkQ a b c d) = q_hash_code (mkQ b a c d) /\
+    q_hash_code (mkQ a b c d) = q_hash_code (mkQ a b d c).
+Proof.
+  intros. rewrite !q_hash_code_sort4. simpl.
+  rewrite (t12 (to_int b)), (t34 (to_int a) (to_int b) (to_int d)). split; reflexivity.
+Qed.
+
+(** Compare recognises the eight presentations of one quartet *)
+Lemma quartet_equals_presentations : forall a b c d,
+    q_compare (mkQ a b c d) (mkQ a b c d) = QEquals /\
+    q_compare (mkQ a b c d) (mkQ b a c d) = QEquals /\
+    q_compare (mkQ a b c d) (mkQ a b d c) = QEquals /\
+    q_compare (mkQ a b c d) (mkQ b a d c) = QEquals /\
+    q_compare (mkQ a b c d) (mkQ c d a b) = QEquals /\
+    q_compare (mkQ a b c d) (mkQ d c a b) = QEquals /\
+    q_compare (mkQ a b c d) (mkQ c d b a) = QEquals /\
+    q_compare (mkQ a b c d) (mkQ d c b a) = QEquals.
+Proof.
+  intros. unfold q_compare. simpl. rewrite !N.eqb_refl. simpl.
+  repeat split; try reflexivity;
+    repeat (rewrite ?andb_true_r, ?orb_true_r, ?andb_true_l, ?orb_true_l; simpl); try reflexivity;
+    destruct (a =? b)%N, (c =? d)%N, (a =? c)%N, (a =? d)%N, (b =? c)%N, (b =? d)%N, (c =? a)%N, (d =? a)%N, (c =? b)%N, (d =? b)%N; reflexivity.
+Qed.
